@@ -271,7 +271,8 @@ Definition store_wf (order : list N) : bool := list_eqb N.eqb order expected_res
 Inductive op :=
 | OCreate (raws : list str) (code : N) (recorded : list (str * bool))   (* observed result *)
 | ORewind (idx : N) (code : N)                                           (* idx-th successful create *)
-| OWrite (raw : str) (mode : N) (data : bytes) (code : N)                (* the write tool: 0 = exit code 0 *)
+| OWrite (raw : str) (mode : N) (data : bytes) (code : N) (tmp : str)   (* the write tool: 0 = exit code 0; tmp = what std's
+                                                                            root.join(raw).with_extension("tmp-UUID") is below the root *)
 | OTamper (idx : N) (rel : str) (now : option bytes)                     (* a stored copy of the idx-th checkpoint was changed / removed *)
 | OEdit.                                                                 (* the harness / apply_patch changed the workspace *)
 
@@ -296,6 +297,13 @@ Definition corr_ext : str := [116; 109; 112; 45; 85; 85; 73; 68].       (* "tmp-
 Definition tmp_fresh (f : fs) (steps : list N) (raw ext : str) : bool :=
   match arg_interp steps raw, file_name raw with
   | Ok x, Some _ => match lookup f (t_path (tmp_tgt x ext)) with None => true | Some _ => false end
+  | _, _ => true
+  end.
+
+(* write_tool applies with_extension to the root-relative argument; std applies it to root.join(raw): same components *)
+Definition tmp_agrees (raw tmp : str) : bool :=
+  match arg_interp expected_tool_steps raw, file_name raw with
+  | Ok x, Some _ => list_eqb lN_eqb (comps (with_extension x corr_ext)) (comps tmp)
   | _, _ => true
   end.
 
@@ -325,9 +333,9 @@ Fixpoint run_ops (root : str) (f : fs) (cks : list (list entry * store)) (ops : 
         let '(f1, er) := rewind_st true st f ck in
         (code =? match er with None => 0 | Some _ => 1 end) && same_listing f1 after && run_ops root after cks r
       end
-    | OWrite raw mode data code =>
+    | OWrite raw mode data code tmp =>
       let '(f1, er) := write_tool expected_tool_steps f raw corr_ext mode data in
-      tmp_fresh f expected_tool_steps raw corr_ext
+      tmp_fresh f expected_tool_steps raw corr_ext && tmp_agrees raw tmp
       && (code =? match er with None => 0 | Some _ => 1 end) && same_listing f1 after && sane_b after
       && run_ops root after cks r
     | OTamper idx rel now => run_ops root after (tamper_nth cks (N.to_nat idx) rel now) r
@@ -339,7 +347,7 @@ Definition check_case (c : case) : bool := sane_b (c_init c) && run_ops (c_root 
 
 (* diagnosis shown on a disagreement: [number of the first operation (from 1) the model does not reproduce
    (0 = the initial workspace is not sane); what failed there: 1 result code, 2 recorded entries, 3 listing,
-   4 unknown checkpoint index, 5 the temporary name is taken, 6 observed workspace not sane] *)
+   4 unknown checkpoint index, 5 the temporary name is taken, 6 observed workspace not sane, 7 std's temporary path differs] *)
 Fixpoint diag_ops (root : str) (f : fs) (cks : list (list entry * store)) (ops : list (op * delta)) (i : N) : list N :=
   match ops with
   | [] => []
@@ -360,9 +368,10 @@ Fixpoint diag_ops (root : str) (f : fs) (cks : list (list entry * store)) (ops :
         if negb (code =? match er with None => 0 | Some _ => 1 end) then [i; 1; match er with None => 0 | Some e => e end]
         else if negb (same_listing f1 after) then [i; 3] else diag_ops root after cks r (i + 1)
       end
-    | OWrite raw mode data code =>
+    | OWrite raw mode data code tmp =>
       let '(f1, er) := write_tool expected_tool_steps f raw corr_ext mode data in
       if negb (tmp_fresh f expected_tool_steps raw corr_ext) then [i; 5]
+      else if negb (tmp_agrees raw tmp) then [i; 7]
       else if negb (code =? match er with None => 0 | Some _ => 1 end) then [i; 1; match er with None => 0 | Some e => e end]
       else if negb (same_listing f1 after) then [i; 3] else if negb (sane_b after) then [i; 6]
       else diag_ops root after cks r (i + 1)
